@@ -27,7 +27,9 @@ RULE = ("Exhaustive: every tuple (function in {@,+,*,T,H,kron,kronsum,inv,solve,
         "outside the property and only tallied; 68 further tuples execute the LARGE branch of every Auto rule on matrix-free "
         "1001 x 1001 operators. Generated: the same calls on Hypothesis-drawn nested trees. Non-trivial: "
         "a tuple for which more than one registered signature of the called function matches the arguments."
-        " Further: NumPy-scalar exponents (float32, int64, int32, float64) for pow.")
+        " Further: NumPy-scalar exponents (float32, int64, int32, float64) for pow."
+        " Round 5: operators of exactly 10^6 entries for every Auto rule; the optional modules (preconditioners, svd,"
+        " slq, randomized_svd) are imported before the lattice runs.")
 ASSUMPTIONS = [
     "only lookup errors are judged; errors raised by the selected rule (CG/Cholesky refusing non-PSD, shape asserts, numerical failures) are tallied by bucket, never alarms",
     "annotations are attached with the public wrappers and may be false of the tiny instance (only dispatch is observed)",
